@@ -451,3 +451,18 @@ def atom(e):
 def strip_py_dec(w):
     """wire value -> abstract without py (for comparing call arguments)"""
     return strip_py(dec(w))
+
+
+def enc_out(a):
+    """abstract outcome -> JSON-able wire form (values as wire records, errors / exceptions as tagged records)"""
+    if a is None:
+        return {"t": "none"}
+    if a["t"] in ("exc", "parse", "ok", "none"):
+        return {k: v for k, v in a.items() if k in ("t", "cls", "phase")}
+    return enc(strip_py(a))
+
+
+def dec_out(w):
+    if w["t"] in ("exc", "parse", "ok", "none"):
+        return dict(w)
+    return dec(w)
